@@ -188,9 +188,50 @@ def _outlives(rng, nt, nexp):
     return progs
 
 
+def _rearm(rng, nt, nexp):
+    """a trigger object that was moved FROM is given a live trigger again by move assignment and must then carry that
+    trigger's duty: (1) move X away, (2) move-assign a live trigger Z into X, (3) destroy X -> Z's line trips.
+    Detectors on Z's line (own and shared) poll before and after; the other lines must stay as they are."""
+    specs = _line_specs(nexp)
+    A = rng.pick(specs)
+    B = rng.pick([s for s in specs if s != A])
+    C = rng.pick(specs)
+    X, Y, Z = 0, 1, 2
+    a = [_mk('T', X, A)]
+    if rng.chance(1, 2):
+        a.append([MOVE_C, X, Y])                           # (1) by move construction
+    else:
+        a += [_mk('T', Y, C), [MOVE_A, X, Y]]              # (1) by move assignment
+    a += [_mk('T', Z, B), [MOVE_A, Z, X]]                  # (2)
+    if rng.chance(1, 3):
+        a.append([DESTROY, Z])                             # the moved-from Z trips nothing
+    a.append([DESTROY, X])                                 # (3) must trip B
+    a += rng.pick([[], [[DESTROY, Y]], [[DESTROY, Y], [DESTROY, Z]]])
+    progs = [a]
+    for t in range(1, nt):
+        shared = rng.chance(1, 3)
+        q = [_mk('S' if shared else 'D', 0, B)]
+        if rng.chance(1, 2):
+            q.append(_mk('D', 1, A))
+        for _ in range(rng.range(2, 4)):
+            q.append([S_IS_TRIPPED, 0] if shared else [IS_TRIPPED, 0])
+            if len(q) > 2 and q[1][0] in (DET_E, DET_D, DET_I) and rng.chance(1, 3):
+                q.append([IS_TRIPPED, 1])
+        progs.append(q)
+    return progs
+
+
 def gen(rng, tier, spec):
     nexp = rng.range(0, 3)
     mode = rng.below(10)
+    if mode == 6 and rng.chance(2, 3):
+        nt = rng.weighted([(2, 1), (5, 2), (3, 3)])
+        progs = _rearm(rng, nt, nexp)
+        if rng.chance(1, 2):
+            sched = R.sched_boundary(rng, nt, 0, rng.range(3, 12), rng.range(0, 40), CW)
+        else:
+            sched = R.any_sched(rng, nt, 60, CW)
+        return {'cfg': [COUNT, nexp, 0, 0], 'progs': progs, 'sched': sched}
     if mode == 5 and rng.chance(4, 5):
         # first use of an indexed line: the trigger thread and the detector thread(s) construct their objects on an
         # index that nobody has touched in this process, in any interleaving (fresh process: cfg[4] = 1)
